@@ -42,7 +42,12 @@ Record tobs := mkTObs {
 Notation nlop := (lop * option sym)%type.
 Definition mk_nop (o : nlop) : nop := mkNop (mk_op (fst o)) (snd o).
 
-Record case := mk { c_schema : schema; c_txns : list (list nlop * tobs) }.
+(** the client API's Create (client/api.go): per model its _uuid field, whether that string is a well-formed uuid and
+    whether it is a well-formed name; observed: the (uuid, uuid-name) members of the insert generated for it *)
+Notation cmodel := (sym * bool * bool)%type.
+Inductive case :=
+| mk (c_schema : schema) (c_txns : list (list nlop * tobs))
+| mkCreate (c_models : list cmodel) (c_ids : list (sym * sym)).
 
 Definition find_T (S : schema) (t : sym) : table :=
   default (mkTable t [] [] true) (find_table S t).
@@ -104,6 +109,10 @@ Fixpoint check_txns (S : schema) (d : dbstate) (l : list (list nlop * tobs)) : n
     end
   end.
 
-Definition check (c : case) : nat := check_txns (c_schema c) ∅ (c_txns c).
+Definition check (c : case) : nat :=
+  match c with
+  | mk sch txns => check_txns sch ∅ txns
+  | mkCreate ms ids => if bool_decide (map create_ids ms = ids) then 0 else 7
+  end.
 
 Definition run := run_cases check.
